@@ -90,8 +90,19 @@ def responder_case(ck, rng, thr, e, h, variant, i, own=0):
             ck.count('setup.establish_failed')
             return
     # fill with half-open IKE_SAs (use valid cookies where the daemon already demands them, so that they do stay)
-    for _ in range(h):
-        d, spi, nonce, ke = request(rng)
+    # the half-open IKE_SAs come from h different initiators, or (every third case) from few initiators whose request arrives again and again
+    # (their retransmissions, a duplicating network): one IKE_SA per accepted copy, each of them counts
+    pool_n = rng.choice([1, 2, 3]) if (i // 8) % 3 == 1 else 0
+    pool = {}
+    sim.case['fill'] = f'copies-of-{pool_n}-requests' if pool_n else 'distinct-initiators'
+    if pool_n and h > pool_n:
+        ck.count('responder.filled_by_copies_of_few_requests')
+    for k_ in range(h):
+        if pool_n and (k_ % pool_n) in pool:
+            d, spi, nonce, ke = pool[k_ % pool_n]
+        else:
+            d, spi, nonce, ke = request(rng)
+            pool[k_ % pool_n if pool_n else k_] = (d, spi, nonce, ke)
         sim.inject(hub, P1A, HUB, d)
         rep = sim.net.pop(0).data if sim.net else None
         sim.net.clear()
@@ -102,6 +113,8 @@ def responder_case(ck, rng, thr, e, h, variant, i, own=0):
                 d2, *_ = request(rng, [c], spi, nonce, ke)
                 sim.inject(hub, P1A, HUB, d2)
                 sim.net.clear()
+                if pool_n:
+                    pool[k_ % pool_n] = (d2, spi, nonce, ke)
     half = sum(1 for s in hub.ctl.ike_sas if s.state.value < 10)
     est = sum(1 for s in hub.ctl.ike_sas if s.state.value >= 10)
     secret = bytes(hub.ctl.cookie_secret)
@@ -364,6 +377,7 @@ def run(ck):
 
 def verdict(ck):
     c = ck.counters
+    ck.floor('responder cases whose half-open IKE_SAs are copies of few requests', c['responder.filled_by_copies_of_few_requests'], 60)
     ck.floor('requests that had to be refused with a cookie', c['responder.must_demand'], 150)
     ck.floor('valid cookies accepted under load', c['responder.valid_cookie_accepted'], 15)
     ck.floor('grid cells', len(ck.sets['responder.grid']), 400)
